@@ -76,3 +76,179 @@ Example C02_nonvacuous :
     Some (mksprop (SVar DI8 [([2%nat; 1%nat], [7; 8]%Z); ([0%nat; 3%nat], [])]) (Some [0; 1]%Z)).
 Proof. cbn zeta. split; [|split; vm_compute; reflexivity].
   split; cbn; [split; [reflexivity | repeat constructor] | split; reflexivity]. Qed.
+
+(* ======================================================================================================================
+   KEY LEVEL (KeyStore.v).  Everything above speaks about the abstract hierarchy (groups, arrays, attributes); the theorems
+   below tie that hierarchy to the KEYS of the store -- .zgroup / .zattrs / .zarray and chunk keys "0.0" for zarr format 2,
+   zarr.json and chunk keys "c/0/0" for zarr format 3 -- which is what "on-disk layout" literally is.
+     jtree_of_keys f ks   the hierarchy (with raw JSON attributes) that the keys ks hold, zarr format f
+     keys_of_jtree f t    the keys a conformant writer lays t out as (one chunk per array)
+     tree_of_keys A / keys_of_tree C   the same through an abstraction A / concretisation C of attribute documents
+   A chunk value carries the decoded payload of the chunk: compressors, filters, the bytes / vlen codecs are zarr's chunk
+   encoding and stay outside the model; so do sharding and the transpose codec (rejected by the document parser).
+   ====================================================================================================================== *)
+From Geff Require Import KeyStore KeyStoreLemmas KeyLayoutLemmas.
+From Geff Require Meta.
+
+(* the abstraction function reads back what the layout function writes: every well-formed hierarchy (arrays of size(shape)
+   values of a storable dtype, distinct member names; any depth, any attributes), both zarr formats *)
+Theorem C02_keys_roundtrip : forall f t, wf_jnode t = true -> jtree_of_keys f (keys_of_jtree f t) = Some t.
+Proof. exact jtree_keys_roundtrip. Qed.
+Print Assumptions C02_keys_roundtrip.
+
+(* the same for the tree of Tree.v, for every attribute abstraction A that inverts the concretisation C on the tree's attributes *)
+Theorem C02_keys_roundtrip_tree : forall A C f t,
+  wf_tree t = true -> attrs_rt A C true t -> tree_of_keys A f (keys_of_tree C f t) = Some t.
+Proof. exact tree_keys_roundtrip. Qed.
+Print Assumptions C02_keys_roundtrip_tree.
+
+(* locality: the member nm of the hierarchy held by ANY store is the hierarchy held by the keys below nm/ *)
+Theorem C02_keys_member : forall f ks a ch nm,
+  jtree_of_keys f ks = Some (JG a ch) -> alookup nm ch = jtree_of_keys f (strip nm ks).
+Proof. exact child_of_keys. Qed.
+Print Assumptions C02_keys_member.
+
+(* frame: two stores (root a group) that agree on the keys below nodes/ and edges/ and on the root's "geff" attribute have
+   the same geff part -- whatever other keys, members, attributes they hold *)
+Theorem C02_keys_frame : forall f ks ks' a ch a' ch',
+  jtree_of_keys f ks = Some (JG a ch) -> jtree_of_keys f ks' = Some (JG a' ch') ->
+  Meta.jget "geff" a = Meta.jget "geff" a' ->
+  strip "nodes" ks = strip "nodes" ks' -> strip "edges" ks = strip "edges" ks' ->
+  geff_part (JG a ch) = geff_part (JG a' ch').
+Proof. exact geff_part_frame. Qed.
+Print Assumptions C02_keys_frame.
+
+Theorem C02_keys_frame_tree : forall A f ks ks' a ch a' ch',
+  jtree_of_keys f ks = Some (JG a ch) -> jtree_of_keys f ks' = Some (JG a' ch') ->
+  Meta.jget "geff" a = Meta.jget "geff" a' ->
+  strip "nodes" ks = strip "nodes" ks' -> strip "edges" ks = strip "edges" ks' ->
+  exists t t', tree_of_keys A f ks = Some t /\ tree_of_keys A f ks' = Some t' /\ zgeff_part t = zgeff_part t'.
+Proof. exact tree_geff_part_frame. Qed.
+Print Assumptions C02_keys_frame_tree.
+
+(* what write_arrays leaves, at the key level: exactly the root documents (with the metadata under the attribute "geff"), the
+   keys of whatever was there before, and below nodes/ and edges/ the group documents, ids, props/<name>/{values,missing,data}
+   -- layout_keys spells the member names as the specification does (string literals), the writer model takes them from
+   geff/_path.py: the statement no longer type-checks when a path constant is renamed *)
+Theorem C02_keys_written : forall C f k pre g md md' n e ov,
+  clean k pre -> wf_input g md n e -> final_metadata g md = Ok md' ->
+  exists tr post,
+    write_arrays k g md true ov (init pre) = (mkst (Some post) tr, Ok tt) /\
+    keys_of_tree C f post = layout_keys C f pre g (backfill (w_nids g) md (w_nprops g)) md'.
+Proof. exact write_keys_layout. Qed.
+Print Assumptions C02_keys_written.
+
+(* the array documents of the ids: key, dtype spelling, shape -- zarr format 2 (.zarray, numpy typestr) *)
+Theorem C02_keys_ids_v2 : forall C pre g nps md' k,
+  clean k pre ->
+  klookup ["nodes"; "ids"; ".zarray"] (layout_keys C V2 pre g nps md') = Some (KDoc (zarray_doc (w_nids g))) /\
+  klookup ["edges"; "ids"; ".zarray"] (layout_keys C V2 pre g nps md') = Some (KDoc (zarray_doc (w_eids g))) /\
+  forall a, jfield "dtype" (zarray_doc a) = Some (JStr (v2_dtype_str (a_dt a))) /\
+            jfield "shape" (zarray_doc a) = Some (jnats_doc (a_shape a)) /\
+            jfield "zarr_format" (zarray_doc a) = Some (JInt 2).
+Proof. exact ids_document_v2. Qed.
+Print Assumptions C02_keys_ids_v2.
+
+(* ... and zarr format 3 (zarr.json with node_type array, data type name) *)
+Theorem C02_keys_ids_v3 : forall C pre g nps md' k,
+  clean k pre ->
+  klookup ["nodes"; "ids"; "zarr.json"] (layout_keys C V3 pre g nps md') = Some (KDoc (v3_array_doc (w_nids g))) /\
+  klookup ["edges"; "ids"; "zarr.json"] (layout_keys C V3 pre g nps md') = Some (KDoc (v3_array_doc (w_eids g))) /\
+  forall a, jfield "data_type" (v3_array_doc a) = Some (JStr (v3_dtype_name (a_dt a))) /\
+            jfield "shape" (v3_array_doc a) = Some (jnats_doc (a_shape a)) /\
+            jfield "node_type" (v3_array_doc a) = Some (JStr "array") /\
+            jfield "zarr_format" (v3_array_doc a) = Some (JInt 3).
+Proof. exact ids_document_v3. Qed.
+Print Assumptions C02_keys_ids_v3.
+
+(* the metadata document sits under the key "geff" of the root's attribute document (.zattrs / "attributes" of zarr.json) *)
+Theorem C02_keys_geff_attribute : forall C f pre g nps md',
+  root_attrs f (layout_keys C f pre g nps md') = Some (root_attr_docs C pre md') /\
+  Meta.jget "geff" (root_attr_docs C pre md') = Some (C true "geff" (AGeff (Some md'))).
+Proof. exact geff_attribute_key. Qed.
+Print Assumptions C02_keys_geff_attribute.
+
+(* FORWARD at the key level, end to end: clean target (a well-formed foreign hierarchy may sit beside it), well-formed input as
+   in C01 whose arrays hold size(shape) values (np_input: true of every numpy array), attributes that survive C then A:
+   write_arrays, then the layout function, then the abstraction function give the written tree back, and the specification
+   decoder turns it into the graph given to the writer *)
+Theorem C02_keys_forward : forall A C f k pre g md md' n e ov,
+  clean k pre -> wf_pre pre -> wf_input g md n e -> np_input g md -> final_metadata g md = Ok md' ->
+  attrs_rt A C true (layout pre g (backfill (w_nids g) md (w_nprops g)) md') ->
+  exists tr post t sg,
+    write_arrays k g md true ov (init pre) = (mkst (Some post) tr, Ok tt) /\
+    tree_of_keys A f (keys_of_tree C f post) = Some t /\ t = post /\
+    spec_decode t = Some sg /\
+    sgraph_eqb sg (mksg (w_nids g) (w_eids g)
+                        (of_props (up_props (backfill (w_nids g) md (w_nprops g))))
+                        (of_props (up_props (w_eprops g)))) = true.
+Proof. exact write_keys_spec. Qed.
+Print Assumptions C02_keys_forward.
+
+(* non-vacuity: a hierarchy with a 2x2 array, a zero-length array, a 0-d array, a string array and a nested group; its keys in
+   both formats; the round trip computed *)
+Definition kx_tree : jnode :=
+  JG [("geff", JObj [("directed", JBool true)]); ("ome", JInt 1)]
+     [("nodes", JG [] [("ids", JA (mkarr DU64 [2%nat; 2%nat] [1; 2; 3; 4]%Z)); ("e", JA (mkarr DBool [0%nat; 3%nat] []))]);
+      ("s", JA (mkarr DStr [2%nat] [7; 8]%Z)); ("z", JA (mkarr DF32 [] [1536]%Z))].
+Example C02_keys_nonvacuous :
+  wf_jnode kx_tree = true /\
+  map fst (keys_of_jtree V2 kx_tree) =
+    [[".zgroup"]; [".zattrs"]; ["nodes"; ".zgroup"]; ["nodes"; ".zattrs"];
+     ["nodes"; "ids"; ".zarray"]; ["nodes"; "ids"; ".zattrs"]; ["nodes"; "ids"; "0.0"];
+     ["nodes"; "e"; ".zarray"]; ["nodes"; "e"; ".zattrs"];
+     ["s"; ".zarray"]; ["s"; ".zattrs"]; ["s"; "0"]; ["z"; ".zarray"]; ["z"; ".zattrs"]; ["z"; "0"]] /\
+  map fst (keys_of_jtree V3 kx_tree) =
+    [["zarr.json"]; ["nodes"; "zarr.json"]; ["nodes"; "ids"; "zarr.json"]; ["nodes"; "ids"; "c"; "0"; "0"];
+     ["nodes"; "e"; "zarr.json"]; ["s"; "zarr.json"]; ["s"; "c"; "0"]; ["z"; "zarr.json"]; ["z"; "c"]] /\
+  jtree_of_keys V2 (keys_of_jtree V2 kx_tree) = Some kx_tree /\
+  jtree_of_keys V3 (keys_of_jtree V3 kx_tree) = Some kx_tree /\
+  klookup ["nodes"; "ids"; ".zarray"] (keys_of_jtree V2 kx_tree) =
+    Some (KDoc (JObj [("shape", JList [JInt 2; JInt 2]); ("chunks", JList [JInt 2; JInt 2]); ("dtype", JStr "<u8");
+                      ("fill_value", JInt 0); ("order", JStr "C"); ("filters", JNull); ("dimension_separator", JStr ".");
+                      ("compressor", JNull); ("zarr_format", JInt 2)])).
+Proof. vm_compute. repeat split; reflexivity. Qed.
+
+(* non-vacuity of the tree-level statements: an abstraction / concretisation pair, a multi-chunk store read by the
+   abstraction function (5x3 array in 2x2 chunks, one chunk absent -> fill value), and a frame instance *)
+Definition kx_A (root : bool) (k : string) (d : Meta.jv) : aval := match d with JInt z => AOther z | _ => AGeff None end.
+Definition kx_C (root : bool) (k : string) (v : aval) : Meta.jv := match v with AOther z => JInt z | AGeff _ => JNull end.
+Definition kx_ztree : znode :=
+  ZG [("geff", AGeff None); ("x", AOther 5)] [("nodes", ZG [] [("ids", ZA (mkarr DI8 [3%nat] [1; 2; 3]%Z))])].
+Definition kx_chunked : kstore :=
+  [([".zgroup"], KDoc (JObj [("zarr_format", JInt 2)]));
+   (["a"; ".zarray"], KDoc (JObj [("shape", JList [JInt 5; JInt 3]); ("chunks", JList [JInt 2; JInt 2]); ("dtype", JStr "<i4");
+                                  ("fill_value", JInt 0); ("order", JStr "C"); ("filters", JNull); ("zarr_format", JInt 2)]));
+   (["a"; "0.0"], KChunk [0; 1; 3; 4]%Z); (["a"; "0.1"], KChunk [2; 0; 5; 0]%Z);
+   (["a"; "1.0"], KChunk [6; 7; 9; 10]%Z); (["a"; "1.1"], KChunk [8; 0; 11; 0]%Z);
+   (["a"; "2.0"], KChunk [12; 13; 0; 0]%Z)].
+Example C02_keys_tree_nonvacuous :
+  wf_tree kx_ztree = true /\ attrs_rt kx_A kx_C true kx_ztree /\
+  tree_of_keys kx_A V3 (keys_of_tree kx_C V3 kx_ztree) = Some kx_ztree /\
+  jtree_of_keys V2 kx_chunked =
+    Some (JG [] [("a", JA (mkarr DI32 [5%nat; 3%nat] [0; 1; 2; 3; 4; 5; 6; 7; 8; 9; 10; 11; 12; 13; 0]%Z))]) /\
+  (let ks := keys_of_jtree V2 kx_tree in
+   let ks' := ks ++ [(["foreign"; ".zgroup"], KDoc (JObj [("zarr_format", JInt 2)]))] in
+   strip "nodes" ks = strip "nodes" ks' /\ strip "edges" ks = strip "edges" ks' /\
+   option_map geff_part (jtree_of_keys V2 ks) = option_map geff_part (jtree_of_keys V2 ks') /\
+   jtree_of_keys V2 ks <> jtree_of_keys V2 ks').
+Proof. split; [reflexivity|]. split; [cbn; repeat constructor|]. split; [vm_compute; reflexivity|]. split; [vm_compute; reflexivity|].
+  cbn zeta. split; [vm_compute; reflexivity|]. split; [vm_compute; reflexivity|]. split; [vm_compute; reflexivity|].
+  vm_compute. discriminate. Qed.
+
+(* keys as strings: the component lists of the model and the "/"-joined key strings of a real store are the same thing -- splitting
+   the joined string on "/" gives the components back, for every non-empty key whose components contain no "/" *)
+Theorem C02_keys_string : forall k, k <> [] -> forallb slash_free k = true -> split_slash (key_string k) = k.
+Proof. exact split_join_key. Qed.
+Print Assumptions C02_keys_string.
+(* ... in particular for every key the layout function produces, when no member name contains "/" *)
+Theorem C02_keys_strings_of_layout : forall f t, names_slash_free t = true ->
+  Forall (fun kv => split_slash (key_string (fst kv)) = fst kv) (keys_of_jtree f t).
+Proof. exact keys_strings_split. Qed.
+Print Assumptions C02_keys_strings_of_layout.
+Example C02_keys_string_nonvacuous :
+  key_string ["nodes"; "props"; "t"; "values"; "0.0"] = "nodes/props/t/values/0.0" /\
+  split_slash "nodes/props/t/values/0.0" = ["nodes"; "props"; "t"; "values"; "0.0"] /\
+  map (fun kv => key_string (fst kv)) (keys_of_jtree V3 (JG [] [("nodes", JG [] [("ids", JA (mkarr DU8 [1%nat] [5]%Z))])]))
+    = ["zarr.json"; "nodes/zarr.json"; "nodes/ids/zarr.json"; "nodes/ids/c/0"].
+Proof. vm_compute. repeat split; reflexivity. Qed.
